@@ -4,6 +4,7 @@ CONSTANTS
   SetupCmds <- StringSetup
   Bound <- StringBound
   T0 = 1000
+  Quick = TRUE
 VIEW View
 ACTION_CONSTRAINT Emit
 INVARIANT TypeOK
